@@ -27,8 +27,22 @@ FRAC = st.one_of(st.sampled_from([0.4999, -0.4999, 0.49, -0.49, 0.0, EDGE, -EDGE
 def s_ref(draw):
     surface = draw(st.booleans())
     tc = draw(st.integers(5, 8)) if surface else draw(st.one_of(st.integers(9, 18), st.integers(20, 22)))
+    lat, lon, par = draw(cg.latitudes()), draw(cg.longitudes()), draw(st.integers(0, 1))
+    special = draw(gen.uint(0, 7)) == 0
+    if special:
+        # a position whose CPR fields are round binary numbers (multiples of 4096, zero included): 1/32 fractions of a zone in both axes
+        base = 90.0 if surface else 360.0
+        dlat = base / (60 - par)
+        jmax = int(89.0 / dlat)
+        frac = st.one_of(st.sampled_from([0, 0, 0, 16, 1, 31]), gen.uint(0, 31))
+        lat = dlat * (draw(gen.uint(-jmax, jmax)) + draw(frac) / 32.0)
+        lat = max(-89.9, min(89.9, lat))
+        dlon = base / max(cpr.NL(lat) - par, 1)
+        kmax = int(179.0 / dlon)
+        lon = dlon * (draw(gen.uint(-kmax, kmax)) + draw(frac) / 32.0)
     return {
-        "lat": draw(cg.latitudes()), "lon": draw(cg.longitudes()), "par": draw(st.integers(0, 1)), "surface": surface, "tc": tc,
+        "lat": lat, "lon": lon, "par": par, "surface": surface, "tc": tc,
+        "corner_fields": special and draw(st.booleans()),
         "f": draw(FRAC), "g": draw(FRAC), "f2": draw(FRAC), "g2": draw(FRAC),
         "ctx_bits": draw(gen.ubits(15)), "ctx_icao": draw(gen.addresses), "df": draw(st.sampled_from([17, 17, 18])), "hc": draw(gen.hexcase),
     }
@@ -47,6 +61,10 @@ def chk_ref(case, note):
     i, surface = case["par"], case["surface"]
     e = cpr.encode(case["lat"], case["lon"], i, surface)
     b = case["ctx_bits"]
+    if case.get("corner_fields"):
+        # the other fields of the message on corners too: altitude / movement all-zero ("not available") or all-one, as the low bits say
+        b = 0 if b & 8 else 0x7FFF
+        note.cls("round-cpr-fields-and-corner-altitude")
     if surface:
         me = cpr.me_surface(case["tc"], i, e["yz"], e["xz"], b & 127, (b >> 7) & 1, (b >> 8) & 127 & 127, 0)
     else:
